@@ -20,6 +20,10 @@ const KINDS: &[&str] = &["jump", "process", "process_mut"];
 pub struct CtrJump;
 
 pub fn stream_len(rng: &mut Rng) -> usize {
+    if rng.chance(1, 400) {
+        let very = rng.chance(1, 10);
+        return crate::scn::hashctx::big_len(rng, very);
+    }
     match rng.below(16) {
         0 => 0,
         1 => 1,
@@ -188,7 +192,7 @@ impl Scenario for CtrJump {
                     if exhausted {
                         continue;
                     }
-                    let mut len = (op.len as usize).min(4096);
+                    let mut len = (op.len as usize).min(2 * 1024 * 1024);
                     if f.counter_bits() == 64 && blk >= u64::MAX - 128 {
                         let remaining = (u64::MAX - blk) as usize * 64 + (64 - off);
                         if len >= remaining {
